@@ -197,15 +197,21 @@ func FuzzAnalyze(f *testing.F) {
 		// the round trip costs ~100x the analysis and constructing the analyzers ~10x: both are judged
 		// on a deterministic fraction of the inputs
 		c := Case{Spec: s, Input: data, RoundTrip: len(data) <= 512 && h%64 == 0, Store: h%128 == 0}
-		fail, _ := evaluateWith(c, built[si], h%16 == 1)
+		fail, st := evaluateWith(c, built[si], h%16 == 1)
 		c.Quoted = strconv.Quote(string(data))
+		if os.Getenv("VERIF_FUZZING") == "" {
+			// quick/thorough tier replaying the seed corpus as plain tests: account and report like any case
+			record("fuzz-seeds", c, nil, fail, st, subjectClasses(s)...)
+			vlib.Report(t, ev, "case", c, fail)
+			return
+		}
 		if fail == nil {
 			return
 		}
 		if _, known := vlib.IsKnown("C18", fail.Key); known {
 			return
 		}
-		t.Fatalf("VERIF-VIOLATION property=C18 key=%s subject=%d (%s) input=%q: %s", fail.Key, int(which)%len(subjects), s.subject(), data, fail.Msg)
+		t.Fatalf("VERIF-VIOLATION property=C18 key=%s subject=%d (%s) input=%q: %s", fail.Key, si, s.subject(), data, fail.Msg)
 	})
 }
 
